@@ -62,6 +62,8 @@ OPENERS = {
     'emulator_ccs1': {'kind': 'emulator', 'via': 'path', 'ccs': 1},
     'emulator_blob': {'kind': 'emulator', 'via': 'blob'},
     'emulator_handle': {'kind': 'emulator', 'via': 'handle'},
+    'handle_nofd': {'kind': 'reader', 'via': 'plain'},          # a file-like object without an OS descriptor
+    'emulator_nofd': {'kind': 'emulator', 'via': 'plain'},
     'xarray': {'kind': 'xarray', 'via': 'path'},
 }
 
@@ -89,6 +91,8 @@ def open_obj(fs, opener, path=FPATH, target=None):
         target = path
     elif via == 'handle':
         target = fs.open(path, 'rb')
+    elif via == 'plain':
+        target = storage.SimPlainHandle(fs.open(path, 'rb'))
     else:
         target = storage.SimBlob(fs, path)
     fs.last_target = target
